@@ -26,6 +26,8 @@ WRAPS_VK = ["clock_gettime", "epoll_wait", "epoll_pwait2", "poll", "ppoll", "epo
 # target -> (harness sources, wrap symbols, sanitizer flavour, extra link flags)
 TARGETS = {
     "loop": (["vfz.c", "vk.c", "t_loop.c"], WRAPS_VK, "asan", []),
+    "avl": (["vfz.c", "t_avl.c"], [], "asan", []),
+    "timers": (["vfz.c", "vk.c", "t_timers.c"], WRAPS_VK, "asan", []),
 }
 
 
@@ -342,3 +344,15 @@ def run_batch(exe, seed, total, params, outdir, nworkers=NCPU, label="b"):
     summ["nt"] = len(hashes)
     summ["hashes"] = hashes
     return summ, fails, samples, broken
+
+
+def run_singles(exe, param_sets, outdir, timeout=3600):
+    """Run `exe run <empty case> params...` for every parameter set in parallel (enumerations that are not byte-driven).
+    Returns list of result dicts (with verbose log)."""
+    os.makedirs(outdir, exist_ok=True)
+    empty = os.path.join(outdir, "empty.case")
+    write_case(empty, {}, b"")
+    def one(ps):
+        return run_case(exe, empty, ps, verbose=True, timeout=timeout)
+    with cf.ThreadPoolExecutor(NCPU) as ex:
+        return list(ex.map(one, param_sets))
